@@ -135,7 +135,12 @@ int main(int argc, char** argv) {
       for (int i = 0; i < MAXT; i++) { atomic_store(&live_by[i], 0); atomic_store(&fn_done[i], 0); }
       atomic_store(&ticket, 0); atomic_store(&order_ticket, 0); shared_plain = 0; atomic_store(&foreign_retire, 0);
       var th[MAXT];
-      for (int i = 0; i < k; i++) th[i] = new(Thread, fn);
+      /* Threads obtained in three ways: new, copy of another (not yet started) Thread, assign onto a fresh Thread */
+      for (int i = 0; i < k; i++) {
+        if (i % 3 == 1) th[i] = copy(th[i - 1]);
+        else if (i % 3 == 2) { th[i] = new(Thread, fpark); assign(th[i], th[i - 2]); }
+        else th[i] = new(Thread, fn);
+      }
       /* arguments must outlive this loop body: a Thread keeps pointers to them */
       static var a_idx[MAXT], a_seed[MAXT], a_rounds;
       if (!a_rounds) a_rounds = new_root(Int, $I(0));
